@@ -137,11 +137,18 @@ def run(R, tier, seed, driver_ok):
                 lines.append(f'{op} {Lr.shape[0]} {d} {n} {bits(Lr)} {bits(X)} {ys}')
                 meta.append((val, 1e-9 * max(1.0, abs(val)), op, c2))
         # ------------------------------------------------------------ LMNN
-        kk = int(rng.choice([1, 2, 3]))
+        kk = int(rng.choice([1, 2, 2, 3, 3]))
         kk = min(kk, int(np.bincount(y).min()) - 1)
         reg = float(rng.choice([0.2, 0.5, 0.8]))
-        init = ['identity', 'pca', 'random', 'auto'][rep % 4]
+        init = ['identity', 'pca', 'random', 'auto', 'array', 'array'][rep % 6]
+        if init == 'array':
+            # a strongly anisotropic transformation: the order of the target neighbours by distance differs from the Euclidean one
+            Qi = np.linalg.qr(rng.randn(d, d))[0]
+            init = (Qi * 10.0 ** rng.uniform(-1, 1, size=d)).dot(Qi.T)
         nc = [None, max(1, d - 1)][rep % 2]
+        init_label = init if isinstance(init, str) else 'array'
+        if not isinstance(init, str) and nc is not None:
+            init = np.ascontiguousarray(init[:nc])
         max_iter = [0, 1, 2, 30, 60][rep % 5]
         cap = {'calls': [], 'targets': None, 'init': None}
         o_lg = LMNN._loss_grad; o_st = LMNN._select_targets; o_ic = mlmnn._initialize_components
@@ -167,9 +174,9 @@ def run(R, tier, seed, driver_ok):
             R.violation(f'LMNN/fit-raises-{type(e).__name__}', f'LMNN.fit raised {type(e).__name__}: {str(e)[:200]}', {'learner': 'LMNN'}); continue
         finally:
             LMNN._loss_grad = o_lg; LMNN._select_targets = o_st; mlmnn._initialize_components = o_ic
-        case = {'learner': 'LMNN', 'init': init, 'n_neighbors': kk, 'regularization': reg, 'max_iter': max_iter, 'n_components': nc, 'X': X, 'y': y}
-        R.case(('c10', 'LMNN', X.tobytes().hex()[:48], init, kk, reg, max_iter, nc), True,
-               sample={'learner': 'LMNN', 'n': n, 'd': d, 'init': init, 'n_neighbors': kk, 'regularization': reg, 'max_iter': max_iter}, branch='LMNN:fit')
+        case = {'learner': 'LMNN', 'init': init_label, 'n_neighbors': kk, 'regularization': reg, 'max_iter': max_iter, 'n_components': nc, 'X': X, 'y': y}
+        R.case(('c10', 'LMNN', X.tobytes().hex()[:48], init_label, kk, reg, max_iter, nc), True,
+               sample={'learner': 'LMNN', 'n': n, 'd': d, 'init': init_label, 'n_neighbors': kk, 'regularization': reg, 'max_iter': max_iter}, branch='LMNN:fit')
         targets = cap['targets']
         # target neighbours are the k nearest same-class points (Euclidean)
         E0 = ((X[:, None] - X[None]) ** 2).sum(-1)
